@@ -368,6 +368,42 @@ def hidden_module_state(ctx, packages, allowed, why):
                 if q in allowed.get(nm, ()) or _qn(fn) in allowed.get(nm, ()):
                     continue
                 findings.append((mod.relpath, _qn(fn), f"writes module-level {nm} ({containers[nm]}): {how}", nm))
+    # the same state one level down: a container in a class body is shared by every instance and outlives them all.
+    # Written from a method through the class (Cls.x, cls.x, type(self).x, self.__class__.x), or through self while no
+    # method ever binds self.x, it is a process-wide memo / registry like a module-level one.
+    for mod in mods:
+        for cls in [c for c in ast.walk(mod.tree) if isinstance(c, ast.ClassDef)]:
+            cattrs = {}
+            for st in cls.body:
+                tg = st.targets if isinstance(st, ast.Assign) else ([st.target] if isinstance(st, ast.AnnAssign) and st.value is not None else [])
+                for t in tg:
+                    v = st.value
+                    if isinstance(t, ast.Name) and (isinstance(v, (ast.Dict, ast.List, ast.Set, ast.DictComp, ast.ListComp, ast.SetComp)) or (isinstance(v, ast.Call) and _dn(v.func) in _CONTAINER_CALLS)):
+                        cattrs[t.id] = st.lineno
+            if not cattrs:
+                continue
+            fns = [x for x in cls.body if isinstance(x, (ast.FunctionDef, ast.AsyncFunctionDef))]
+            bound = {t.attr for f_ in fns for a in ast.walk(f_) if isinstance(a, (ast.Assign, ast.AnnAssign, ast.AugAssign))
+                     for t in (a.targets if isinstance(a, ast.Assign) else [a.target])
+                     if isinstance(t, ast.Attribute) and isinstance(t.value, ast.Name) and t.value.id == "self"}
+            for f_ in fns:
+                for x in ast.walk(f_):
+                    tgt = None
+                    if isinstance(x, ast.Subscript) and isinstance(x.ctx, (ast.Store, ast.Del)) and isinstance(x.value, ast.Attribute):
+                        tgt, how = x.value, f"{_norm(x)} = ..."
+                    elif isinstance(x, ast.Call) and isinstance(x.func, ast.Attribute) and x.func.attr in _MUTATORS and isinstance(x.func.value, ast.Attribute):
+                        tgt, how = x.func.value, _norm(x)[:70]
+                    if tgt is None or tgt.attr not in cattrs:
+                        continue
+                    recv = _norm(tgt.value)
+                    via_class = recv in (cls.name, "cls", "type(self)", "self.__class__")
+                    via_self = recv == "self" and tgt.attr not in bound
+                    if not (via_class or via_self):
+                        continue
+                    key = f"{cls.name}.{tgt.attr}"
+                    if f"{cls.name}.{f_.name}" in allowed.get(key, ()):
+                        continue
+                    findings.append((mod.relpath, f"{cls.name}.{f_.name}", f"writes class-level {key} (a container in the class body, line {cattrs[tgt.attr]}): {how}", key))
     ctx.floor("modules scanned for hidden module-level state", scanned, 3)
     seen = set()
     for rel, q, what, nm in findings:
